@@ -670,12 +670,18 @@ func main() {
 			rf.Note = "worker process died during this run; replay re-executes run_index from the seed"
 			writeJSON(rpath, rf)
 			res := runChunk(100000+reported, v.Index, v.Index+1, false)
-			if !res.crashed && strings.Contains(v.Key, "out of memory") {
+			if !res.crashed && (strings.Contains(v.Key, "out of memory") || strings.Contains(v.Key, "cannot allocate") || v.Key == "exit--1") {
 				// running out of memory depends on what the earlier runs of the same
 				// worker left on the heap; the crash itself is the evidence.  The
 				// replay re-executes the run, which reports whatever it finds alone.
-				rf.Note += "; out-of-memory crashes depend on the heap state of the worker and need not reproduce alone"
+				rf.Note += "; out-of-memory crashes (fatal error, or the process killed by the kernel / address-space limit) depend on the heap state of the worker and need not reproduce alone"
 				writeJSON(rpath, rf)
+			} else if !res.crashed && v.Class == "hang" {
+				// a watchdog expiry that does not reproduce alone is load on the
+				// machine, not a property of the run: say so and move on
+				fmt.Printf("WARNING run %d exceeded the %d s watchdog inside its batch but completes when run alone; not reported\n", v.Index, wdSecs)
+				os.Remove(rpath)
+				continue
 			} else if !res.crashed {
 				fmt.Fprintf(os.Stderr, "%s\n", v.stderr)
 				die("crash of run %d (class %s) did not reproduce when run alone: nondeterministic harness or cross-run state", v.Index, v.Class)
